@@ -1,5 +1,7 @@
 #!/usr/bin/env python3
-"""Prepare scratch worktrees for a round of independently seeded changes: /tmp/<round>-<ID>/ with _TASK.md holding only the
+"""Prepare scratch worktrees for a round of independently seeded changes (give each worktree a copy of /repo/target first: `cp -a /repo/target
+<wt>/target`; the dev-debug setting below is what makes cargo reuse it â€” without it every agent rebuilds ~4 GB of dependencies; harvest each
+worktree (_seed/, the demo test) and remove it as soon as its agent reports, then evaluate with tools/seed_eval_shared.sh): /tmp/<round>-<ID>/ with _TASK.md holding only the
 property's text and the protocol. usage: seed_launch.py <round> [ID ...]   (agents are started separately)"""
 import json, os, subprocess, sys, glob
 VERIF = os.path.dirname(os.path.dirname(os.path.abspath(__file__)))
@@ -40,7 +42,7 @@ changed default, a reordered step, a helper reused where it does not fit â€¦) â€
 1. BREAKS the property for at least one input inside the property's quantifier,
 2. still compiles, and
 3. leaves the ENTIRE existing test suite passing, unedited (311 tests):
-   `mkdir -p {wt}/_tmp && TMPDIR={wt}/_tmp CARGO_TARGET_DIR={wt}/target CARGO_NET_OFFLINE=true cargo nextest run --workspace --no-fail-fast --test-threads 8 --offline`
+   `mkdir -p {wt}/_tmp && TMPDIR={wt}/_tmp CARGO_TARGET_DIR={wt}/target CARGO_NET_OFFLINE=true CARGO_PROFILE_DEV_DEBUG=line-tables-only CARGO_BUILD_JOBS=4 RUST_BACKTRACE=0 cargo nextest run --workspace --no-fail-fast --test-threads 8 --offline`
 
 The change must be in non-test source (`crates/*/src/**`, the `.pest` grammar counts), small (ideally under 25 changed lines), not a
 special case on a literal input (no `if ticker == "XYZ"`), and add no dependencies.
